@@ -35,6 +35,9 @@ THEOREMS = [
     "C17_resolve_inside",
     "C17_resolve_kernel",
     "C17_reject_outside",
+    "C17_realpath_agrees_with_kernel",
+    "C17_kernel_outside_rejected",
+    "C17_resolve_is_kernel_location",
     "C17_arrow_inside",
     "C17_listing_relative",
     "C17_entrypoints",
@@ -112,8 +115,9 @@ def report(ctx, problems: List[Dict[str, Any]]) -> None:
         ctx.violation(key, what, pr)
 
 
-def oracle_storage(ctx, strings: Sequence[str]) -> None:
+def oracle_storage(ctx, strings: Sequence[str]) -> Tuple[str, List[Any]]:
     wsp = pathaudit.Workspace(os.path.join(ctx.scratch, "ws-storage"))
+    obs: List[Any] = []
     judge = pathaudit.Judge(wsp)
     audit = Audit.get()
     from datashard.storage_backend import LocalStorageBackend
@@ -133,6 +137,8 @@ def oracle_storage(ctx, strings: Sequence[str]) -> None:
                 n += 1
                 ctx.count(1, ("storage", name, base_kind, p))
                 report(ctx, problems)
+                if not problems:
+                    observe(obs, name, base_kind, base, p, outcome, audit)
     dfm_n = 0
     for base_kind, base in bases:
         dfm = pathaudit.make_dfm(base)
@@ -146,10 +152,67 @@ def oracle_storage(ctx, strings: Sequence[str]) -> None:
                 dfm_n += 1
                 ctx.count(1, ("dfm", name, base_kind, p))
                 report(ctx, problems)
+                if not problems:
+                    observe(obs, name, base_kind, base, p, outcome, audit)
     ctx.stats["audit_storage_calls"] = n
     ctx.stats["audit_dfm_calls"] = dfm_n
     ctx.stats["audit_outcomes_storage"] = dict(sorted(outcomes.items()))
     shutil.rmtree(wsp.ws, ignore_errors=True)
+    return wsp.ws, obs
+
+
+MODEL_ENTRY = {"read_file": "EpRead", "read_json": "EpRead", "open_file": "EpOpen", "open_seekable": "EpOpenSeekable", "write_file": "EpWrite",
+               "write_json": "EpWriteJson", "exists": "EpExists", "list_files": "EpList", "delete_file": "EpDelete", "makedirs": "EpMakedirs",
+               "get_size": "EpSize", "get_modified_time": "EpMtime", "create_lock": "EpLock", "open_parquet_source": "EpParquetSource",
+               "read_data_file": "EpReadDataFile", "write_data_file": "EpWriteDataFile"}
+
+
+def observe(obs: List[Any], name: str, base_kind: str, base: str, p: str, outcome: str, audit: Audit) -> None:
+    """Keep what the real call did (outcome class + kernel locations reached) for the entry-point correspondence."""
+    _res, exc, events = audit.last
+    if outcome == "IsADirectoryError" and exc is not None and "table root itself" in str(exc):
+        outcome = "isroot"
+    obs.append((name, base_kind, base, p, outcome, [(ev, tgt) for ev, _p, tgt, _cwd in events if tgt is not None]))
+
+
+def corr_entries(ctx, ws: str, obs: List[Any], stride: int) -> None:
+    """Model/Path.v run_entry vs the audited behaviour of the real entry points (same standard tree):
+    Security / IsRoot / other outcome must agree, and every location the OS was handed must be one the model
+    lists: the guard's result, a file staged in (ACreateIn dir), a directory created on the way to (AMkdirs loc),
+    or something below (AList loc)."""
+    spec = pathfs.standard_spec(ws)
+    codes = Codes()
+    tree = pathfs.spec_to_coq(ws, spec, codes)
+    sel = obs[::stride]
+    exprs = []
+    for name, _bk, base, p, _o, _ev in sel:
+        exprs.append(f"run_entry {FUEL} T [] gen_table_dirs {coq_list(codes.pstr(base))} {MODEL_ENTRY[name]} {coq_list(codes.pstr(p))}")
+    got = coqbuild.coq_eval(REQ, exprs, preamble=f"Definition T : tree := {tree}.", chunk=400)
+    bad = []
+    for (name, bk, base, p, outcome, events), g in zip(sel, got):
+        ctx.count(1, ("corr-entry", name, bk, p))
+        if g.name == "Err":
+            model = {"Security": "security", "IsRoot": "isroot"}.get(g.args[0].name, g.args[0].name)
+            if model != outcome:
+                bad.append({"entry": name, "base": bk, "path": p, "impl": outcome, "model": repr(g)})
+            elif events:
+                bad.append({"entry": name, "base": bk, "path": p, "impl": f"rejected but reached {events[:3]}", "model": repr(g)})
+            continue
+        if outcome in ("security", "isroot"):
+            bad.append({"entry": name, "base": bk, "path": p, "impl": outcome, "model": repr(g)[:200]})
+            continue
+        accs = [(a[0].name, a[1]) for a in g.args[0]]
+        for ev, tgt in events:
+            if not pathfs.under(ws, tgt):
+                continue                     # interpreter-side files (imports, /proc): judged by the oracle, not modelled
+            loc = codes.loc(tgt)
+            ok = any(loc == l or (k == "ACreateIn" and loc[:-1] == l) or (k == "AMkdirs" and l[:len(loc)] == loc)
+                     or (k == "AList" and loc[:len(l)] == l) for k, l in accs)
+            if not ok:
+                bad.append({"entry": name, "base": bk, "path": p, "impl": f"{ev} reached {tgt}", "model": repr(accs)[:300]})
+                break
+    ctx.correspondence("entrypoints", len(sel), bad)
+    ctx.stats["corr_entry_cases"] = len(sel)
 
 
 TABLE_ENTRIES = ["scan:manifest_entry", "scan:manifest_entry_nochecksum", "scan:manifest_path", "scan:manifest_list_path",
@@ -439,8 +502,8 @@ def run(ctx) -> None:
 
     quick = ctx.tier == "quick"
     ws_probe = os.path.realpath(ctx.scratch)
-    audit_strings = strings_for(ctx, os.path.join(ws_probe, "ws-storage"), 3, 250 if quick else 2500)
-    oracle_storage(ctx, audit_strings)
+    audit_strings = strings_for(ctx, os.path.join(ws_probe, "ws-storage"), 3 if quick else 4, 250 if quick else 6000)
+    obs_ws, obs = oracle_storage(ctx, audit_strings)
     table_strings = strings_for(ctx, os.path.join(ws_probe, "ws-table"), 3, 0 if quick else 600)
     if quick:
         table_strings = table_strings[::3]
@@ -449,8 +512,9 @@ def run(ctx) -> None:
     ctx.stats["audit_strings_table"] = len(table_strings)
 
     try:
-        corr_strings = pathfs.grammar(3) if quick else pathfs.grammar(3) + ctx.rng.sample(pathfs.grammar(4), 12000)
+        corr_strings = pathfs.grammar(3) if quick else pathfs.grammar(4)
         corr_paths(ctx, corr_strings)
+        corr_entries(ctx, obs_ws, obs, 2 if quick else 3)
         corr_random_trees(ctx, 60 if quick else 600, 25)
     except RuntimeError as e:
         ctx.proof_problems.append("model evaluation failed: " + str(e)[:800])
